@@ -907,7 +907,8 @@ func execFn(x *fw.Ctx, c *Case) {
 			x.Fail("harness-pool", "%s", herr)
 			return
 		}
-		ctx += " after=" + sigName(c.After[1])
+		// the step comes first: a crash signature is cut after 100 characters
+		ctx = "chain after=" + sigName(c.After[1]) + " " + ctx
 		insig = " after=" + sigName(c.After[1])
 	}
 	if c.Amb != "" {
